@@ -54,7 +54,7 @@ func muskingum(inflows, laterals data.ND1Float64,
 		outflows.Set(idx, outflow)
 
 		prevOutflow = outflow
-		prevInflow = inflow
+		prevInflow = inflow + lateral
 	}
 
 	return s, prevInflow, prevOutflow
